@@ -177,6 +177,7 @@ extern "C" int __wrap_kill(pid_t pid, int sig) {
 static void fillPattern(void* p, size_t n, int slot) { unsigned char* c = (unsigned char*)p; for (size_t i = 0; i < n; i++) c[i] = (unsigned char)(0x41 + (slot + (int)i) % 26); }
 
 static uint64_t g_fired[K_COUNT];
+class SilentLeakFailure : public MemoryLeakFailure { public: void fail(char*) CPPUTEST_OVERRIDE {} };
 static void throwOrAbort(bool doThrow) {
 #if CPPUTEST_HAVE_EXCEPTIONS
     if (doThrow) throw std::runtime_error("thrown by a plugin action");
@@ -319,6 +320,13 @@ static void execOp(const Group& T, const Op& o) {
     case K_DIE_ABORT: if (PS.inChild) { signal(SIGABRT, SIG_DFL); abort(); } break;
     case K_DIE_STOP: if (PS.inChild) raise(SIGSTOP); break;       // (SIGSTOP can be neither ignored nor blocked)
     case K_PLUGIN_INSTALL: { size_t p = (size_t)o.a; if (p < RS.pluginObjs.size() && !RS.pluginInstalled[p]) { RS.reg->installPlugin(RS.pluginObjs[p]); RS.pluginInstalled[p] = 1; } break; }
+    case K_OTHER_LEAK_PLUGIN: {
+        static SilentLeakFailure silent;
+        MemoryLeakDetector* local = new MemoryLeakDetector(&silent);
+        { MemoryLeakWarningPlugin other("OtherLeakPlugin", local); }
+        delete local;
+        break;
+    }
     case K_ADD_FAILURES: { UtestShell* cur = UtestShell::getCurrent(); for (int64_t n = 0; n < o.a; n++) cur->addFailure(TestFailure(cur, file, line, SimpleString(text))); break; }
     case K_PLUGIN_REMOVE: { size_t p = (size_t)o.a; if (p < RS.pluginObjs.size()) { if (!RS.pluginInstalled[p]) fired("remove_plugin_name_that_is_not_installed"); RS.reg->removePluginByName(RS.pluginObjs[p]->getName()); RS.pluginInstalled[p] = 0; } break; }   // a name that is not installed: nothing may change
     case K_PTR_SET: UT_PTR_SET(g_tgt[o.a % N_TARGETS], (void*)&g_val[o.b % N_VALUES]); break;
@@ -656,7 +664,7 @@ void executeRun(const Desc& d, Obs& o) {
     for (size_t i = 0; i < plugins.size(); i++) { plugins[i]->~SimPlugin(); ::free(plugins[i]); }
     for (size_t i = 0; i < owned.size(); i++) { owned[i]->~UtestShell(); ::free(owned[i]); }
 
-    static const char* const firedNames[K_COUNT] = { 0, 0, 0, "fail_check_cpp", "fail_check_c_longjmp", "throw_std", "throw_foreign", 0, 0, 0, 0, 0, 0, 0, 0, 0, 0, 0, 0, 0, 0, 0, 0, 0, 0, 0, "plugin_installed_mid_run", "plugin_removed_mid_run", "failures_added_without_leaving_the_phase" };
+    static const char* const firedNames[K_COUNT] = { 0, 0, 0, "fail_check_cpp", "fail_check_c_longjmp", "throw_std", "throw_foreign", 0, 0, 0, 0, 0, 0, 0, 0, 0, 0, 0, 0, 0, 0, 0, 0, 0, 0, 0, "plugin_installed_mid_run", "plugin_removed_mid_run", "second_leak_plugin_built_and_destroyed", "failures_added_without_leaving_the_phase" };
     for (int k = 0; k < K_COUNT; k++) { if (firedNames[k] && g_fired[k]) fired(firedNames[k], g_fired[k]); g_fired[k] = 0; }
     SimIO& io = simIO();
     o.console = io.console; o.writesAfterClose = io.writesAfterClose; o.badHandle = io.badHandle;
